@@ -451,6 +451,11 @@ func rCompare(fs rFS, t *rTree, when string) {
 
 var rOpNames = []string{"Mkdir", "MkdirAll", "OpenFile", "WriteFullFile", "Remove", "RemoveAll", "Rename", "Chmod", "Chtimes", "Stat", "ReadDir", "ReadFile"}
 
+// the argument paths of the last rStep
+var rLastArg, rLastArg2 string
+
+func pathDir(p string) string { return path.Dir(p) }
+
 type rResult struct {
 	err   error
 	errno syscall.Errno // model's class
@@ -501,6 +506,7 @@ func rFlag(id string) int {
 func rStep(fs rFS, t *rTree, op int, allowRootMutation bool) rResult {
 	cands := rCandidates()
 	p := cands[verifChoice("arg", len(cands))]
+	rLastArg, rLastArg2 = p, ""
 	if !allowRootMutation && p == "." && op >= 4 && op <= 6 {
 		verifAssume(false) // removing / renaming the root is excluded
 	}
@@ -551,6 +557,7 @@ func rStep(fs rFS, t *rTree, op int, allowRootMutation bool) rResult {
 		r.errno, r.epath = t.removeAll(p)
 	case 6:
 		n := cands[verifChoice("arg2", len(cands))]
+		rLastArg2 = n
 		verifTag("new", rKindName(t.kind(n)))
 		verifTag("relation", rRelation(p, n))
 		if n == "." {
